@@ -92,6 +92,10 @@ def gen_ext(rng):
 
 def gen_src(rng):
     r = rng.random()
+    if r < 0.08:
+        return gen.edge_source(rng)             # empty / blank / definitions-only bodies: the boundary of every "write the result" path
+    if r < 0.14:
+        return gen.state_heavy(rng)
     if r < 0.4:
         d = rng.choice(gen.corpus_list())
         d = d if len(d) < 4000 else d[:4000].rsplit(b'\n', 1)[0] + b'\n'
